@@ -40,6 +40,7 @@ struct Family {
   const char* harness;                                   // l1 | l2d | l2m | l3
   plan::Plan (*generate)(uint64_t seed, const std::string& tier);
   const char* doc;
+  bool enumerating = false;   // the seed handed to generate() is (hash(base seed, family) << 32) | run index
 };
 
 // each harness file registers its families and its run function
